@@ -30,7 +30,9 @@ A parameter `T *&dest` with a non-const pointee that is used only in statements 
 the function returns the pair (result, list of the values stored, in order, each converted to T).  The pair of
 statements `std::char_traits<char>::copy(dest, A, n); dest += n;` with A a namespace-scope constant array appends the
 first n elements of A (its contents are supplied by the compiler).  A call of _ST_PRIVATE::assert_handler (the expansion
-of ST_ASSERT) ends the function with the result ext_abort = -1.
+of ST_ASSERT) ends the function with the result ext_abort = -1.  `if (dest) S` with dest the output cursor is S: a function
+with an output cursor is translated for a non-null output (the null case of cleanup_utf8 / append_chars only skips the
+stores).  char_traits::copy(dest, p, n) with p a pointer into a parameter array appends p[0..n-1].
 Anything else makes the translation of that function fail (reported; the obligation that mentions it then no longer
 compiles)."""
 import json
@@ -78,12 +80,14 @@ TARGETS = [
     ('latin_1_convert_from_utf16', '_ST_PRIVATE::conversion_error_t (char *, const char16_t *, size_t, ST::utf_validation_t, bool)'),
     ('latin_1_convert_from_utf32', '_ST_PRIVATE::conversion_error_t (char *, const char32_t *, size_t, ST::utf_validation_t, bool)'),
     ('utf8_convert_from_utf16', '_ST_PRIVATE::conversion_error_t (char *, const char16_t *, size_t, ST::utf_validation_t)'),
+    ('append_chars', 'size_t (char *&, const char *, size_t)'),
+    ('cleanup_utf8', 'size_t (char *, const char *, size_t)'),
 ]
 # a pointer parameter that points into the array of another parameter (one past its end): it is passed as an index
 # functions whose first `T *` parameter with a non-const pointee is a write-only cursor (used only as `*p++ = e`)
 PLAIN_CURSOR_FUNCS = ('utf8_convert_from_latin_1', 'utf16_convert_from_utf32', 'utf8_convert_from_utf32', 'utf32_convert_from_utf8',
                       'utf32_convert_from_utf16', 'utf16_convert_from_utf8', 'utf16_convert_from_latin_1', 'utf32_convert_from_latin_1',
-                      'latin_1_convert_from_utf8', 'latin_1_convert_from_utf16', 'latin_1_convert_from_utf32', 'utf8_convert_from_utf16')
+                      'latin_1_convert_from_utf8', 'latin_1_convert_from_utf16', 'latin_1_convert_from_utf32', 'utf8_convert_from_utf16', 'cleanup_utf8')
 ALIAS_PARAMS = {('extract_utf8', 'end'): 'utf8', ('extract_utf16', 'end'): 'utf16'}
 # a translated function that returns a pointer returns it into the array of this parameter
 RET_BASE_PARAM = 0
@@ -199,6 +203,15 @@ class Translator:
             if base is None or INT_TYPES[to] == INT_TYPES[frm]:
                 return (base, idx)
             return ('(fun i_ => %s (%s i_))' % ('wraps 8' if INT_TYPES[to][0] else 'wrapu 8', base), idx)
+        if k == 'ImplicitCastExpr' and n.get('castKind') == 'ArrayToPointerDecay':
+            a = inner[0]
+            while a.get('kind') == 'ParenExpr':
+                a = a['inner'][0]
+            rd = a.get('referencedDecl') or {}
+            if a.get('kind') == 'DeclRefExpr' and rd.get('kind') == 'VarDecl' and rd.get('id') not in env:
+                self.ext_arrays[rd['name']] = None
+                return ('(fun i_ => nth (Z.to_nat i_) ext_arr_%s 0)' % rd['name'], '(0)')
+            raise Unsupported('array that is not a namespace-scope constant')
         if k == 'DeclRefExpr':
             vid = (n.get('referencedDecl') or {}).get('id')
             if vid in self.ptr_base and vid in env:
@@ -789,6 +802,8 @@ class Translator:
             env[d['id']] = name
             lets, env = self.apply_pending(pend, env)
             return self.with_binds(binds, 'let %s := %s in %s\n  %s' % (name, v, lets, self.stmts([more] + rest, env)))
+        if k == 'IfStmt' and self.out_cursor is not None and is_ref_to(inner[0], self.out_cursor):
+            return self.stmts([inner[1]] + rest, env)
         if k == 'IfStmt':
             then = inner[1]
             els = inner[2] if len(inner) > 2 else None
@@ -815,13 +830,17 @@ class Translator:
             while arr.get('kind') in ('ImplicitCastExpr', 'ParenExpr'):
                 arr = arr['inner'][0]
             rd = arr.get('referencedDecl') or {}
-            if arr.get('kind') != 'DeclRefExpr' or rd.get('kind') != 'VarDecl' or rd.get('id') in env:
-                raise Unsupported('copy from something that is not a namespace-scope array')
-            self.ext_arrays[rd['name']] = None
             nlen, _, _ = self.full_expr(inner[3], env)
             env2 = dict(env)
             key = ('out', self.out_cursor)
-            env2[key] = '(%s ++ firstn (Z.to_nat %s) ext_arr_%s)' % (env[key], nlen, rd['name'])
+            if arr.get('kind') == 'DeclRefExpr' and rd.get('id') in self.ptr_base and rd.get('id') in env:
+                base, idx = self.ptr_expr(inner[2], env)
+                env2[key] = '(%s ++ map (fun j_ => %s (%s + Z.of_nat j_)) (seq 0 (Z.to_nat %s)))' % (env[key], base, idx, nlen)
+            elif arr.get('kind') == 'DeclRefExpr' and rd.get('kind') == 'VarDecl' and rd.get('id') not in env:
+                self.ext_arrays[rd['name']] = None
+                env2[key] = '(%s ++ firstn (Z.to_nat %s) ext_arr_%s)' % (env[key], nlen, rd['name'])
+            else:
+                raise Unsupported('copy from something that is neither a namespace-scope array nor a pointer parameter')
             env2[('copylen',)] = nlen
             return self.stmts(rest, env2)
         if self.out_cursor is not None and k == 'CompoundAssignOperator' and s.get('opcode') == '+=' and is_ref_to(inner[0], self.out_cursor):
